@@ -42,7 +42,9 @@ func take(ev gmsl.PDU) (s snap, err error) {
 }
 
 func eqSK(a, b *string) bool { return (a == nil) == (b == nil) && (a == nil || *a == *b) }
-func eqL(a, b []string) bool { return strings.Join(a, "\x00") == strings.Join(b, "\x00") && len(a) == len(b) }
+func eqL(a, b []string) bool {
+	return strings.Join(a, "\x00") == strings.Join(b, "\x00") && len(a) == len(b)
+}
 
 // same compares identity fields always and payload fields unless redaction happened in between.
 func same(a, b snap, payload bool) string {
@@ -402,15 +404,17 @@ func run(r *harness.Run) {
 			}
 			if false {
 				mk("state_key", func(q *evalpha.Proto) {
-				if q.StateKey == nil {
-					q.StateKey = evgen.S("")
-				} else {
-					q.StateKey = evgen.S(*q.StateKey + "x")
-				}
-			})
+					if q.StateKey == nil {
+						q.StateKey = evgen.S("")
+					} else {
+						q.StateKey = evgen.S(*q.StateKey + "x")
+					}
+				})
 			}
 			mk("sender", func(q *evalpha.Proto) { q.Sender = "@other:a.org" })
-			mk("content-unprotected-key", func(q *evalpha.Proto) { q.Content = strings.Replace(q.Content, "{", `{"zz_extra":1`+map[bool]string{true: "", false: ","}[q.Content == "{}"], 1) })
+			mk("content-unprotected-key", func(q *evalpha.Proto) {
+				q.Content = strings.Replace(q.Content, "{", `{"zz_extra":1`+map[bool]string{true: "", false: ","}[q.Content == "{}"], 1)
+			})
 			mk("depth", func(q *evalpha.Proto) { q.Depth++ })
 			mk("prev_events", func(q *evalpha.Proto) { q.Prev[0] = strings.Replace(q.Prev[0], "p", "z", 1) })
 			mk("auth_events", func(q *evalpha.Proto) { q.Auth[0] = strings.Replace(q.Auth[0], "p", "z", 1) })
